@@ -343,3 +343,171 @@ def selftest():
     rep = []
     inv.check_any(condition_parser().parse('x > 1 and not p and y in [1 to 3] and forall i in xs: @i = z'), rep)
     assert rep == [], rep
+
+
+# ------------------------------------------------------------------------------------------
+# definite typing of an abstract expression against a schema (used to keep shrunk witnesses
+# inside the domain "well-typed under the schema")
+# ------------------------------------------------------------------------------------------
+class IllTyped(Exception):
+    pass
+
+
+def abstract_type(e, this, aliases, bound=None):
+    """Model type of abstract expression e: ('bool',) ('num',) ('str',) ('arr', T, n) ('msg', ..)
+    ('set', kinds) ('range',).  Raises IllTyped."""
+    bound = bound or {}
+    t = e[0]
+    P = (('bool',), ('num',), ('str',))
+
+    def prim(x):
+        ty = abstract_type(x, this, aliases, bound)
+        if ty not in P:
+            raise IllTyped(f'primitive expected: {x!r}')
+        return ty
+
+    def want(x, ty):
+        got = abstract_type(x, this, aliases, bound)
+        if got != ty:
+            raise IllTyped(f'{ty} expected, got {got}')
+        return got
+
+    if t == 'lit':
+        return {'bool': ('bool',), 'num': ('num',), 'str': ('str',)}[e[1]]
+    if t == 'const':
+        return ('num',)
+    if t == 'this':
+        if this is None:
+            raise IllTyped('no current message')
+        return this
+    if t == 'var':
+        if e[1] in bound:
+            return bound[e[1]]
+        if e[1] in aliases:
+            return aliases[e[1]]
+        raise IllTyped('unbound variable ' + e[1])
+    if t == 'field':
+        b = abstract_type(e[1], this, aliases, bound)
+        if b[0] != 'msg':
+            raise IllTyped('field of non-message')
+        if e[2] in b[1]:
+            return b[1][e[2]]
+        if e[2] in b[2]:
+            return b[2][e[2]][0]
+        raise IllTyped('unknown field ' + e[2])
+    if t == 'index':
+        b = abstract_type(e[1], this, aliases, bound)
+        if b[0] != 'arr':
+            raise IllTyped('index of non-array')
+        want(e[2], ('num',))
+        return b[1]
+    if t == 'set':
+        kinds = frozenset(prim(k) for k in e[1])
+        return ('set', kinds)
+    if t == 'range':
+        want(e[1], ('num',))
+        want(e[2], ('num',))
+        return ('range',)
+    if t == 'un':
+        if e[1] == 'not':
+            want(e[2], ('bool',))
+            return ('bool',)
+        want(e[2], ('num',))
+        return ('num',)
+    if t == 'bin':
+        op = e[1]
+        if op in ('and', 'or', 'implies', 'iff'):
+            want(e[2], ('bool',))
+            want(e[3], ('bool',))
+            return ('bool',)
+        if op in ('<', '<=', '>', '>='):
+            want(e[2], ('num',))
+            want(e[3], ('num',))
+            return ('bool',)
+        if op in ('=', '!='):
+            a, b = prim(e[2]), prim(e[3])
+            if a != b:
+                raise IllTyped('equality between different kinds')
+            return ('bool',)
+        if op == 'in':
+            a = prim(e[2])
+            c = abstract_type(e[3], this, aliases, bound)
+            if elem_kinds(c) is None or a not in elem_kinds(c):
+                raise IllTyped('membership kind mismatch')
+            return ('bool',)
+        want(e[2], ('num',))
+        want(e[3], ('num',))
+        return ('num',)
+    if t == 'quant':
+        if e[2] in bound:
+            raise IllTyped('re-binding')
+        d = abstract_type(e[3], this, aliases, bound)
+        ks = elem_kinds(d)
+        if ks is None or len(ks) != 1:
+            raise IllTyped('quantifier domain')
+        if e[2] in _vars(e[3]):
+            raise IllTyped('variable in own domain')
+        b2 = dict(bound)
+        b2[e[2]] = next(iter(ks))
+        if abstract_type(e[4], this, aliases, b2) != ('bool',):
+            raise IllTyped('quantifier body')
+        if e[2] not in _free(e[4], frozenset()):
+            raise IllTyped('variable unused')
+        return ('bool',)
+    if t == 'call':
+        name, args = e[1], e[2]
+        tys = [abstract_type(a, this, aliases, bound) for a in args]
+        if name in ('abs', 'sqrt', 'ceil', 'floor', 'sin', 'cos', 'tan', 'asin', 'acos', 'atan', 'deg', 'rad'):
+            if tys != [('num',)]:
+                raise IllTyped(name)
+            return ('num',)
+        if name in ('bool', 'int', 'float', 'str'):
+            if len(tys) != 1 or tys[0] not in P:
+                raise IllTyped(name)
+            return {'bool': ('bool',), 'str': ('str',)}.get(name, ('num',))
+        if name in ('len', 'sum', 'prod', 'max', 'min', 'gcd') and len(tys) == 1:
+            ks = elem_kinds(tys[0])
+            if ks is None:
+                raise IllTyped(name)
+            if name != 'len' and ks != frozenset({('num',)}):
+                raise IllTyped(name)
+            return ('num',)
+        if name in ('max', 'min', 'gcd', 'log', 'atan2') and len(tys) >= 2 and all(x == ('num',) for x in tys):
+            if name in ('log', 'atan2') and len(tys) != 2:
+                raise IllTyped(name)
+            return ('num',)
+        if name in ('roll', 'pitch', 'yaw'):
+            if (len(tys) == 1 and tys[0][0] == 'msg') or (len(tys) == 4 and all(x == ('num',) for x in tys)):
+                return ('num',)
+        raise IllTyped('call ' + name)
+    raise IllTyped(repr(e))
+
+
+def elem_kinds(c):
+    if c[0] == 'arr':
+        return frozenset({c[1]}) if c[1] in (('bool',), ('num',), ('str',)) else None
+    if c[0] == 'set':
+        return c[1]
+    if c[0] == 'range':
+        return frozenset({('num',)})
+    return None
+
+
+def _vars(e):
+    from .. import absyn
+    return absyn.all_vars(e)
+
+
+def _free(e, bound):
+    from .. import absyn
+    return absyn.free_vars(e, bound)
+
+
+def is_well_typed(e, this, aliases, want=None):
+    try:
+        t = abstract_type(e, this, aliases)
+    except IllTyped:
+        return False
+    except Exception:
+        return False
+    return want is None or t == want
